@@ -249,7 +249,7 @@ Proof.
   pose proof (Inv_step now s o Iv Ht Ha) as I'.
   pose proof (IH _ _ I' Hr) as Hrest.
   destruct o as [t h|ct ch a]; cbn [P_trace]; rewrite step_infos.
-  - split; [|exact Hrest]. rewrite step_block. exact (begin_block_P now s t h Iv Ht).
+  - split; [|exact Hrest]. rewrite step_block. cbn [snd o_ok o_infos o_hooks]. exact (begin_block_P now s t h Iv Ht).
   - exact Hrest.
 Qed.
 
@@ -667,7 +667,7 @@ Proof.
 Qed.
 
 Example ex_pre_nonvacuous :
-  pre {| c_k := 2; c_init := []; c_tr := map (fun o => (o, {| b_ok := true; b_infos := []; b_log := [] |})) ex_ops |} = true.
+  pre {| c_k := 2; c_fail := ({| g_id := 0; g_n := 0; g_end := true |}, 0%nat); c_init := []; c_tr := map (fun o => (o, {| b_ok := true; b_infos := []; b_log := [] |})) ex_ops |} = true.
 Proof. vm_compute. reflexivity. Qed.
 
 (* ---------------------------------------------------------------- MultiEpochHooks fan-out *)
@@ -692,4 +692,88 @@ Proof.
   intro Hr. unfold fanout. induction l as [|c l IH]; [reflexivity|].
   cbn [flat_map]. rewrite filter_app, map_app, IH, fanout_one_call.
   destruct (Nat.leb_spec 0 r); [|lia]. destruct (Nat.ltb_spec r (0 + k)); [|lia]. reflexivity.
+Qed.
+
+(* ---------------------------------------------------------------- a failing hook receiver *)
+
+Lemma step_f_block g s lf t h :
+  step_f g (s, lf) (Block t h) =
+  match lf with
+  | S lf' => if existsb (hook_matches g) (snd (begin_block s t h))
+             then ((s, lf'), {| o_ok := false; o_infos := s; o_hooks := [] |})
+             else ((fst (begin_block s t h), lf),
+                   {| o_ok := true; o_infos := fst (begin_block s t h); o_hooks := snd (begin_block s t h) |})
+  | O => ((fst (begin_block s t h), lf),
+          {| o_ok := true; o_infos := fst (begin_block s t h); o_hooks := snd (begin_block s t h) |})
+  end.
+Proof. unfold step_f. destruct (begin_block s t h). reflexivity. Qed.
+
+Lemma step_f_add g s lf ct ch a :
+  step_f g (s, lf) (Add ct ch a) =
+  ((fst (add_epoch s ct ch a), lf),
+   {| o_ok := snd (add_epoch s ct ch a); o_infos := fst (add_epoch s ct ch a); o_hooks := [] |}).
+Proof. unfold step_f. destruct (add_epoch s ct ch a). reflexivity. Qed.
+
+Lemma run_f_cons g sl o r :
+  run_f g sl (o :: r) = (fst (run_f g (fst (step_f g sl o)) r), snd (step_f g sl o) :: snd (run_f g (fst (step_f g sl o)) r)).
+Proof. cbn [run_f]. destruct (step_f g sl o) as [sl1 x]. cbn [fst snd]. destruct (run_f g sl1 r). reflexivity. Qed.
+
+(** a panicking hook aborts the block: nothing is committed (and one failure is used up) *)
+Lemma abort_commits_nothing g s lf t h :
+  existsb (hook_matches g) (snd (begin_block s t h)) = true ->
+  step_f g (s, S lf) (Block t h) = ((s, lf), {| o_ok := false; o_infos := s; o_hooks := [] |}).
+Proof. intro H. rewrite step_f_block, H. reflexivity. Qed.
+
+(** a block that is committed is exactly BeginBlocker's block: its state, its complete hook list *)
+Lemma committed_block_is_complete g s lf t h :
+  o_ok (snd (step_f g (s, lf) (Block t h))) = true ->
+  fst (fst (step_f g (s, lf) (Block t h))) = fst (begin_block s t h) /\
+  o_infos (snd (step_f g (s, lf) (Block t h))) = fst (begin_block s t h) /\
+  o_hooks (snd (step_f g (s, lf) (Block t h))) = snd (begin_block s t h).
+Proof.
+  rewrite step_f_block. destruct lf as [|lf]; [cbn; auto|].
+  destruct (existsb (hook_matches g) (snd (begin_block s t h))); cbn; [discriminate|auto].
+Qed.
+
+(** without failures the model is the plain one *)
+Lemma run_f_no_failures g : forall ops s, snd (run_f g (s, O) ops) = snd (run s ops) /\ fst (fst (run_f g (s, O) ops)) = fst (run s ops).
+Proof.
+  induction ops as [|o r IH]; intro s; [split; reflexivity|].
+  rewrite run_f_cons, run_cons. destruct o as [t h|ct ch a].
+  - rewrite step_f_block, step_block. cbn [fst snd]. destruct (IH (fst (begin_block s t h))) as [A B]. rewrite A, B. auto.
+  - rewrite step_f_add, step_add. cbn [fst snd]. destruct (IH (fst (add_epoch s ct ch a))) as [A B]. rewrite A, B. auto.
+Qed.
+
+(** MAIN with a failing receiver: along every history every block either is aborted and commits nothing, or is
+    committed and satisfies the per-block property with its complete hook list *)
+Theorem trace_f_satisfies_property g : forall ops now s lf,
+  Inv now s -> ops_ok now ops -> P_trace s (combine ops (snd (run_f g (s, lf) ops))).
+Proof.
+  induction ops as [|o r IH]; intros now s lf Iv Ho; [simpl; exact I|].
+  destruct Ho as [Ht [Ha Hr]]. rewrite run_f_cons. cbn [snd combine].
+  destruct o as [t h|ct ch a]; cbn [P_trace].
+  - rewrite step_f_block. cbn [op_time] in *.
+    assert (Keep : Inv t s) by (destruct Iv as [W N]; split; [|exact N]; rewrite Forall_forall in *; intros x Hx; apply (wf_later now); auto).
+    pose proof (Inv_begin_block now s t h Iv Ht) as Adv.
+    destruct lf as [|lf].
+    + cbn [fst snd o_ok o_infos o_hooks]. split; [exact (begin_block_P now s t h Iv Ht)|]. exact (IH _ _ _ Adv Hr).
+    + destruct (existsb (hook_matches g) (snd (begin_block s t h))); cbn [fst snd o_ok o_infos o_hooks].
+      * split; [split; reflexivity|]. exact (IH _ _ _ Keep Hr).
+      * split; [exact (begin_block_P now s t h Iv Ht)|]. exact (IH _ _ _ Adv Hr).
+  - rewrite step_f_add. cbn [fst snd o_infos]. exact (IH _ _ _ (Inv_add now s ct ch a Iv Ht Ha) Hr).
+Qed.
+
+(** the receivers' logs: [fan_ok] says every receiver saw exactly the calls receiver 0 saw, in the same order *)
+Lemma rec_hook_eqb_eq a b : rec_hook_eqb a b = true -> a = b.
+Proof.
+  destruct a, b. unfold rec_hook_eqb. cbn. intro H. apply andb_true_iff in H. destruct H as [A B].
+  apply Nat.eqb_eq in A. apply hook_eqb_eq in B. subst. reflexivity.
+Qed.
+
+Lemma fan_ok_sound k o r :
+  fan_ok k o = true -> (r < k)%nat ->
+  map snd (filter (fun x : nat * hook => Nat.eqb (fst x) r) (b_log o)) = calls o.
+Proof.
+  unfold fan_ok. intros H Hr. apply (list_eqb_eq rec_hook_eqb rec_hook_eqb_eq) in H. rewrite <- H.
+  apply fanout_each_hook_sees_every_call. exact Hr.
 Qed.
